@@ -15,7 +15,8 @@ def nt_promise(h):
 PROPS = {
     "C11": dict(
         pid=11,
-        coq=["Common/ListLemmas.v", "Promise/Model.v", "Promise/Spec.v", "Promise/Proofs.v", "Promise/Props_C11.v"],
+        coq=["Common/ListLemmas.v", "Promise/Model.v", "Promise/Spec.v", "Promise/Proofs.v", "Promise/ProofsMon.v", "Promise/ProofsMon2.v",
+             "Promise/Props_C11.v"],
         props_file="Promise/Props_C11.v",
         models=[
             dict(name="promise", pkg="./promisex", test="TestPromise", coq_mod="Promise.Spec", run_check="run_check_promise",
@@ -43,9 +44,10 @@ PROPS = {
             "interleavings of the memory accesses INSIDE one segment (Swap vs. Load+Store, fields written after close(done)) cannot be forced by the "
             "controller; they are covered by the model theorems and searched for by the free-running stress histories (chance-dependent)",
             "Go's select choice is not seeded: a replayed history may take the other ready case; hints are recomputed on replay",
-            "the unbounded model_satisfies_monitors is not proved; c11_monitors_accept_model_bounded checks it by kernel computation for every accepted "
-            "sequence of <= 5 events of a fixed alphabet (and <= 4 events after three fixed prefixes); beyond that the tie is empirical: on every run the "
-            "model reproduces the implementation's observations and the monitors are evaluated on those",
+            "monitors tied to the model for ALL event lists and both configurations (c11_model_satisfies_monitors, c11_model_run_check_clean): on the model's own "
+            "observations no clause other than clause 7 is ever false; clause 7 is the recorded finding D20/D21, false on the model as on the code "
+            "(c11_monitors_clause7_refuted), and raised only in that situation (c11_clause7_only_in_d21); the bounded sweep "
+            "c11_monitors_accept_model_bounded is kept as an independent kernel computation",
         ],
         meta=dict(
             text="Coq theorems over ALL event lists of an interleaving model of promise.Promise at memory-access granularity (Swap | gate | field writes + close) and of "
